@@ -30,7 +30,21 @@ def dup_program(rnd, depth=2):
     def cp():
         return json.loads(json.dumps(base))
     shape = rnd.choice(["siblings", "seq", "nested", "twice", "mixed", "map", "catch_all", "cousins", "generated",
-                        "limited", "limited", "rejected"])
+                        "limited", "limited", "rejected", "optout"])
+    if shape == "optout":
+        # equal calls of which some opted out of result sharing (cache_scope=NONE): the regular ones must still be
+        # handed to an executor at most once, whatever the opted-out twins do in between
+        nm = rnd.choice(["inc", "neg", "ident"])
+        reg = lambda: ["call", nm, [["val", x]], {}, {}]  # noqa: E731
+        none = lambda: ["call", nm, [["val", x]], {}, {"options": {"cache_scope": "NONE"}}]  # noqa: E731
+        late = lambda: ["call", nm, [["call", "ident", [["val", x]], {}, {}]], {}, {}]  # noqa: E731  (ready later)
+        late2 = lambda: ["call", nm, [["call", "ident", [["call", "ident", [["val", x]], {}, {}]], {}, {}]], {}, {}]  # noqa: E731
+        items = [reg(), none(), late()]
+        if rnd.random() < 0.5:
+            items.append(rnd.choice([none, late2])())
+        if rnd.random() < 0.3:
+            rnd.shuffle(items)
+        return ["cont", "list", items], shape
     if shape == "rejected":
         # jobs that demand resources but are rejected before reaching an executor (unknown executor name), caught
         # so that the execution goes on and other jobs compete for the same resource afterwards
@@ -227,8 +241,18 @@ def explore_program(ctx, focus, ast, rnd, caps_cfg, n_random, dfs_budget, stats,
     results = {}
 
     def one(ch, how):
-        out, c, s = engine.run_controlled(wf.build(ast), ch, backend=backend_holder[0], limits=caps_cfg, cache=cache)
-        if out[0] == "e" and engine.is_db_failure(out[1]):
+        # cache=True is the scheduler's normal mode (per-call cache_scope honoured): every run then gets a fresh in-memory
+        # backend, so that nothing is served from another schedule's execution
+        out, c, s = engine.run_controlled(wf.build(ast), ch, backend=None if cache else backend_holder[0], limits=caps_cfg,
+                                          cache=cache)
+        if cache:
+            ctx.count("schedules_run_in_normal_cache_mode")
+            try:
+                s.backend.session.close()
+                s.backend.engine.dispose()
+            except Exception:
+                pass
+        if out[0] == "e" and engine.is_db_failure(out[1]) and not cache:
             backend_holder[0] = engine.new_backend()
         sigs.add(c.signature())
         ctx.count("schedules_run")
